@@ -484,6 +484,7 @@ func c16lcElsewhere() error {
 	owned := map[string]bool{
 		"healthChecker.startCheck": true, "healthChecker.stopCheck": true, "healthChecker.incHealthy": true, "healthChecker.decHealthy": true,
 		"sessionChecker.HandleSuccess": true, "sessionChecker.HandleFailure": true,
+		".newChecker": true, // the initial counter values are read by gen_c16_share.go (Gen/HealthShare)
 	}
 	ents, err := os.ReadDir(filepath.Join(repo, c16lcDir))
 	if err != nil {
@@ -557,7 +558,9 @@ func c16lcCluster() error {
 					n++
 				}
 			case *ast.Ident:
-				if x.Name == "SetHealthFlag" || x.Name == "ClearHealthFlag" || x.Name == "GetHealthFlagPointer" || x.Name == "healthFlags" {
+				// flag operations of UpdateHosts on the new host set are read, with their conditions, by gen_c16_share.go
+				// (Gen/HealthShare.updateHostsWrites); StopHealthChecking must have none
+				if fn != "UpdateHosts" && (x.Name == "SetHealthFlag" || x.Name == "ClearHealthFlag" || x.Name == "GetHealthFlagPointer" || x.Name == "healthFlags") {
 					bad = x.Name
 				}
 			}
